@@ -50,3 +50,10 @@ def arena_offset(an, ti):
         return None
     v = an["offsets"]["offsets"][ti]
     return None if v < 0 else v
+
+
+def tensor_data_present(an, ti):
+    """the tensor owns a constant buffer in the file (it is not an arena-resident activation)"""
+    t = an["sg"]["tensors"][ti]
+    b = t.get("buffer")
+    return bool(b) and bool(an["model"]["buffers"][b])
